@@ -72,6 +72,31 @@ namespace bloch::compiler {
         return true;
     }
 
+    // Numeric literals are converted with std::stoi / stoll / stof later on (analyser, evaluator);
+    // a literal that does not fit its type made those throw std::out_of_range, which surfaced as
+    // the raw message "stoi" instead of a diagnostic. Literals are range-checked when parsed.
+    static void checkNumericLiteralRange(const Token& token) {
+        const char* what = nullptr;
+        try {
+            if (token.type == TokenType::IntegerLiteral) {
+                what = "int";
+                (void)std::stoi(token.value);
+            } else if (token.type == TokenType::LongLiteral) {
+                what = "long";
+                std::string digits = token.value;
+                if (!digits.empty() && (digits.back() == 'L' || digits.back() == 'l'))
+                    digits.pop_back();
+                (void)std::stoll(digits);
+            } else if (token.type == TokenType::FloatLiteral) {
+                what = "float";
+                (void)std::stof(token.value);
+            }
+        } catch (const std::exception&) {
+            throw BlochError(ErrorCategory::Parse, token.line, token.column,
+                             std::string(what) + " literal '" + token.value + "' is out of range");
+        }
+    }
+
     bool Parser::isTypeAhead() const {
         if (check(TokenType::Void) || check(TokenType::Int) || check(TokenType::Float) ||
             check(TokenType::Long) || check(TokenType::Char) || check(TokenType::String) ||
@@ -707,6 +732,12 @@ namespace bloch::compiler {
         if (annotationToken.type == TokenType::Shots) {
             (void)expect(TokenType::LParen, "Expected opening bracket '('");
             numberOfShots = expect(TokenType::IntegerLiteral, "Number of shots must be an integer");
+            try {
+                (void)std::stoi(numberOfShots.value);
+            } catch (const std::exception&) {
+                throw BlochError(ErrorCategory::Parse, numberOfShots.line, numberOfShots.column,
+                                 "number of shots '" + numberOfShots.value + "' is out of range");
+            }
             (void)expect(TokenType::RParen, "Expected closing bracket ')'");
         }
         std::unique_ptr<AnnotationNode> annotation = std::make_unique<AnnotationNode>();
@@ -1207,6 +1238,7 @@ namespace bloch::compiler {
             match(TokenType::StringLiteral) || match(TokenType::CharLiteral) ||
             match(TokenType::True) || match(TokenType::False)) {
             Token tok = previous();
+            checkNumericLiteralRange(tok);
             std::string litType;
             switch (tok.type) {
                 case TokenType::IntegerLiteral:
@@ -1342,6 +1374,7 @@ namespace bloch::compiler {
     std::unique_ptr<Expression> Parser::parseLiteral() {
         const Token& token = advance();
 
+        checkNumericLiteralRange(token);
         switch (token.type) {
             case TokenType::IntegerLiteral:
                 return std::make_unique<LiteralExpression>(LiteralExpression{token.value, "int"});
